@@ -49,6 +49,11 @@ def collect(ctx: Ctx, n: int, tagp: str):
              # two equal scheduler-task expressions under one parent (the second reuses the first one's evaluation)
              EL.call("add", {"k": "catch", "body": EL.call("inc", EL.V(0)), "handlers": [[["ValueError"], "recover"]]},
                      EL.call("ident", {"k": "catch", "body": EL.call("inc", EL.V(0)), "handlers": [[["ValueError"], "recover"]]})),
+             # an equal expression reached only AFTER the first one has finished (a later item of seq, the branch of a
+             # cond whose guard consumed the first): its consumer's argument still links to the producing call
+             EL.call("sumall", {"k": "seq", "items": [EL.call("inc", EL.V(1)), EL.call("ident", EL.call("inc", EL.V(1)))]}),
+             {"k": "cond", "clauses": [[EL.call("inc", EL.V(3)), EL.call("add", EL.call("inc", EL.V(3)), EL.V(5))]], "else": EL.V(0)},
+             EL.call("sumall", {"k": "seq", "items": [EL.call("twice", EL.V(2)), EL.call("add", EL.call("twice", EL.V(2)), EL.call("inc", EL.V(7)))]}),
              EL.call("add", {"k": "cond", "clauses": [[EL.call("inc", EL.V(1)), EL.call("twice", EL.V(2))]], "else": EL.V(0)},
                      EL.call("ident", {"k": "cond", "clauses": [[EL.call("inc", EL.V(1)), EL.call("twice", EL.V(2))]], "else": EL.V(0)}))]
     progs = (fixed + [PL.prov_expr(ctx.rng, ctx.rng.randint(2, 4)) for _ in range(n)]
